@@ -131,7 +131,41 @@ def _drop_edge(case, presl, e):
     return c, out
 
 
-def minimise_pair(case, pa, pb, timeout, budget=120):
+def _drop_state(case, presl, k):
+    """The case without abstract state k (presentations adjusted), or None
+    if that is not a well-formed case (padding present, relation no longer
+    total, a fairness set emptied)."""
+    K = case['K']
+    n = K['n']
+    if n <= 1 or any(p.get('pad') for p in presl):
+        return None
+    keep_e = [i for i, (a, b) in enumerate(K['E']) if a != k and b != k]
+    E = [[a - (a > k), b - (b > k)] for a, b in
+         (K['E'][i] for i in keep_e)]
+    if set(a for a, _ in E) != set(range(n - 1)):
+        return None
+    c = copy.deepcopy(case)
+    c['K'] = {'n': n - 1, 'E': E,
+              'lab': [l for i, l in enumerate(K['lab']) if i != k]}
+    if case.get('F') is not None:
+        F = [[x - (x > k) for x in P if x != k] for P in case['F']]
+        if any(not P for P in F):
+            return None
+        c['F'] = F
+    emap = dict((old, new) for new, old in enumerate(keep_e))
+    out = []
+    for p in presl:
+        p = copy.deepcopy(p)
+        p['smap'] = [v for i, v in enumerate(p['smap']) if i != k]
+        p['S'] = [i - (i > k) for i in p['S'] if i != k]
+        p['L'] = [i - (i > k) for i in p['L'] if i != k]
+        p['S0'] = [i - (i > k) for i in p.get('S0', []) if i != k]
+        p['R'] = [emap[e] for e in p['R'] if e in emap]
+        out.append(p)
+    return c, out
+
+
+def minimise_pair(case, pa, pb, timeout, budget=160):
     """Shrink (case, presentation a, presentation b) while they still give
     different answers (and the difference is not KF1)."""
     tests = [0]
@@ -183,6 +217,13 @@ def minimise_pair(case, pa, pb, timeout, budget=120):
                 case = c
                 changed = True
                 break
+    # 2b. states
+    k = case['K']['n'] - 1
+    while k >= 0 and tests[0] < budget:
+        r = _drop_state(case, [pa, pb], k)
+        if r is not None and ok(r[0], r[1][0], r[1][1]):
+            case, (pa, pb) = r
+        k -= 1
     # 3. edges
     e = 0
     while e < len(case['K']['E']) and tests[0] < budget:
